@@ -1,8 +1,8 @@
 // C15 — template cache and loaders always serve the source the configuration calls for.
 //
 // Explicit enumeration of operation histories on a live engine with two instrumented in-memory
-// loaders (L1 timestamp-aware, L2 plain; registered separately or behind a ChainLoader). After every
-// Load/Render the result, the loaders' read counters and (for a missing name) the cache listing are
+// loaders (L1 timestamp-aware, L2 plain or — arrangement "ts2" — timestamp-aware as well; registered
+// separately in either order, or behind a ChainLoader). After every Load/Render the result, the loaders' read counters and (for a missing name) the cache listing are
 // compared with a small reference state machine transcribed from the property statement.
 //
 //	phase A  every history over the alphabet up to the depth bound, no pruning (each history is
@@ -121,8 +121,9 @@ func (l *tsLoader) write(n string) { // mirror src/mt of one name to disk
 	}
 }
 
-type plainLoader struct { // L2: no timestamps
+type plainLoader struct { // L2: no timestamps (mt is only reported in the "ts2" arrangement, through tsPlain)
 	src map[string]string
+	mt  map[string]int64
 	st  *stats
 }
 
@@ -135,6 +136,16 @@ func (l *plainLoader) Load(n string) (string, error) {
 	return "", fmt.Errorf("%w: %s (L2)", twig.ErrTemplateNotFound, n)
 }
 func (l *plainLoader) Exists(n string) bool { l.st.consult[n]++; _, ok := l.src[n]; return ok }
+
+// tsPlain is L2 registered as a timestamp-aware loader ("ts2" arrangement).
+type tsPlain struct{ *plainLoader }
+
+func (l tsPlain) GetModifiedTime(n string) (int64, error) {
+	if t, ok := l.mt[n]; ok {
+		return t, nil
+	}
+	return 0, fmt.Errorf("%w: %s (L2)", twig.ErrTemplateNotFound, n)
+}
 
 // ---------------------------------------------------------------------------------------------
 // operations
@@ -157,6 +168,7 @@ const (
 	opLoad   // Engine.Load + Template.Render
 	opRender // Engine.Render
 	opRenderInc
+	opTouch2 // newer timestamp in L2, same content ("ts2" arrangement only)
 )
 
 type op struct {
@@ -165,7 +177,7 @@ type op struct {
 }
 
 func (o op) String() string {
-	names := [...]string{"cache0", "cache1", "reload0", "reload1", "dev0", "dev1", "reg", "modL1", "modL2", "touchL1", "delL1", "delL2", "load", "render", "renderinc"}
+	names := [...]string{"cache0", "cache1", "reload0", "reload1", "dev0", "dev1", "reg", "modL1", "modL2", "touchL1", "delL1", "delL2", "load", "render", "renderinc", "touchL2"}
 	if o.n == "" {
 		return names[o.k]
 	}
@@ -183,6 +195,16 @@ var alphabet = []op{
 	{opReload1, ""}, {opReload0, ""}, {opCache0, ""}, {opCache1, ""}, {opDev1, ""}, {opDev0, ""},
 }
 
+// alphabetOf: the arrangement with a timestamp-aware L2 has one more letter.
+var alphabetTS2 = append(append([]op{}, alphabet...), op{opTouch2, "n1"})
+
+func alphabetOf(v variant) []op {
+	if v.l2ts() {
+		return alphabetTS2
+	}
+	return alphabet
+}
+
 const incSource = "<{% include 'n1' %}>"
 
 // ---------------------------------------------------------------------------------------------
@@ -191,21 +213,42 @@ const incSource = "<{% include 'n1' %}>"
 type variant struct {
 	// Arr: "sep" L1 and L2 registered one after the other; "chain" both behind one ChainLoader;
 	// "builtin" like sep, followed by an empty ArrayLoader, FileSystemLoader and CompiledLoader;
-	// "fs" L1 is a real FileSystemLoader on a scratch directory (modification times set with Chtimes)
-	Arr    string
-	Seeded bool   // start with n1 in L1 and L2 and n2 in L2 (instead of empty loaders)
-	Reg    string // "str" RegisterString, "tpl" RegisterTemplate, "cmp" RegisterCompiledTemplate
+	// "fs" L1 is a real FileSystemLoader on a scratch directory (modification times set with Chtimes);
+	// "rev" L2 (plain) registered BEFORE L1 (timestamp-aware); "revfs" like rev with the real
+	// FileSystemLoader as L1; "ts2" L1 then L2, both timestamp-aware
+	Arr string
+	// Start: "empty" loaders; "seeded" n1 in L1 and L2, n2 in L2; "late" n1 only in the loader that is
+	// registered last, n2 in L2
+	Start string
+	Reg   string // "str" RegisterString, "tpl" RegisterTemplate, "cmp" RegisterCompiledTemplate
 }
 
-func (v variant) String() string {
-	s := "empty"
-	if v.Seeded {
-		s = "seeded"
+func (v variant) String() string { return v.Arr + "/" + v.Start + "/" + v.Reg }
+
+func (v variant) chain() bool   { return v.Arr == "chain" }
+func (v variant) l2first() bool { return v.Arr == "rev" || v.Arr == "revfs" } // L2 registered before L1
+func (v variant) l2ts() bool    { return v.Arr == "ts2" }                     // L2 reports timestamps
+func (v variant) realFS() bool  { return v.Arr == "fs" || v.Arr == "revfs" }
+
+type placed struct {
+	loader int // 1 = L1, 2 = L2
+	name   string
+}
+
+// startContents: which loader holds which name in the start state, in the order in which the
+// version numbers are handed out.
+func (v variant) startContents() []placed {
+	switch v.Start {
+	case "seeded":
+		return []placed{{1, "n1"}, {2, "n1"}, {2, "n2"}}
+	case "late":
+		if v.l2first() {
+			return []placed{{1, "n1"}, {2, "n2"}}
+		}
+		return []placed{{2, "n1"}, {2, "n2"}}
 	}
-	return v.Arr + "/" + s + "/" + v.Reg
+	return nil
 }
-
-func (v variant) chain() bool { return v.Arr == "chain" }
 
 // ---------------------------------------------------------------------------------------------
 // world = live engine + reference state
@@ -246,25 +289,29 @@ func newWorldOpt(v variant, withEngine bool) *world {
 	st := newStats()
 	w := &world{v: v, st: st,
 		l1:    &tsLoader{src: map[string]string{}, mt: map[string]int64{}, st: st},
-		l2:    &plainLoader{src: map[string]string{"inc": incSource}, st: st},
+		l2:    &plainLoader{src: map[string]string{"inc": incSource}, mt: map[string]int64{"inc": 10}, st: st},
 		cache: true, cached: map[string]entry{}, dirty: map[string]bool{}, clock: 10, kinds: map[string]int64{}}
 	if withEngine {
 		w.e = twig.New()
 	}
-	if v.Arr == "fs" && withEngine {
+	if v.realFS() && withEngine {
 		w.l1.fs = twig.NewFileSystemLoader([]string{scratchDir("tpl")})
 		w.l1.write("n1") // nothing in src yet: removes what an earlier history left behind
 		w.l1.write("n2")
 	}
-	if v.Seeded {
+	for _, c := range v.startContents() {
 		w.ver++
-		w.clock++
-		w.l1.src["n1"], w.l1.mt["n1"] = fmt.Sprintf("v%d@L1", w.ver), w.clock
-		w.l1.write("n1")
-		w.ver++
-		w.l2.src["n1"] = fmt.Sprintf("v%d@L2", w.ver)
-		w.ver++
-		w.l2.src["n2"] = fmt.Sprintf("v%d@L2", w.ver)
+		if c.loader == 1 {
+			w.clock++
+			w.l1.src[c.name], w.l1.mt[c.name] = fmt.Sprintf("v%d@L1", w.ver), w.clock
+			w.l1.write(c.name)
+		} else {
+			w.l2.src[c.name] = fmt.Sprintf("v%d@L2", w.ver)
+			if v.l2ts() {
+				w.clock++
+				w.l2.mt[c.name] = w.clock
+			}
+		}
 	}
 	if !withEngine {
 		return w
@@ -278,6 +325,12 @@ func newWorldOpt(v variant, withEngine bool) *world {
 		w.e.RegisterLoader(twig.NewArrayLoader(map[string]string{}))
 		w.e.RegisterLoader(twig.NewFileSystemLoader([]string{scratchDir("empty")}))
 		w.e.RegisterLoader(twig.NewCompiledLoader(scratchDir("empty")))
+	case "rev", "revfs":
+		w.e.RegisterLoader(w.l2)
+		w.e.RegisterLoader(w.l1)
+	case "ts2":
+		w.e.RegisterLoader(w.l1)
+		w.e.RegisterLoader(tsPlain{w.l2})
 	default:
 		w.e.RegisterLoader(w.l1)
 		w.e.RegisterLoader(w.l2)
@@ -290,7 +343,7 @@ func (w *world) cloneModel() *world {
 	c := &world{v: w.v, st: newStats(), cache: w.cache, reload: w.reload, ver: w.ver, clock: w.clock,
 		cached: map[string]entry{}, dirty: map[string]bool{}, kinds: map[string]int64{}}
 	c.l1 = &tsLoader{src: map[string]string{}, mt: map[string]int64{}, st: c.st}
-	c.l2 = &plainLoader{src: map[string]string{}, st: c.st}
+	c.l2 = &plainLoader{src: map[string]string{}, mt: map[string]int64{}, st: c.st}
 	for k, x := range w.l1.src {
 		c.l1.src[k] = x
 	}
@@ -299,6 +352,9 @@ func (w *world) cloneModel() *world {
 	}
 	for k, x := range w.l2.src {
 		c.l2.src[k] = x
+	}
+	for k, x := range w.l2.mt {
+		c.l2.mt[k] = x
 	}
 	for k, x := range w.cached {
 		c.cached[k] = x
@@ -319,26 +375,59 @@ func (w *world) applicable(o op) bool {
 	case opDel2:
 		_, ok := w.l2.src[o.n]
 		return ok
+	case opTouch2:
+		_, ok := w.l2.src[o.n]
+		return ok && w.v.l2ts()
 	case opRegister:
 		return w.cache
 	}
 	return true
 }
 
+// fromLoaders: the loaders in registration order, the first that has the name wins.
 func (w *world) fromLoaders(n string) (entry, bool) {
-	if s, ok := w.l1.src[n]; ok {
-		if w.v.chain() {
+	in1 := func() (entry, bool) {
+		s, ok := w.l1.src[n]
+		if ok && w.v.chain() {
 			return entry{s, orgChain, 0}, true
 		}
-		return entry{s, orgL1, w.l1.mt[n]}, true
+		return entry{s, orgL1, w.l1.mt[n]}, ok
 	}
-	if s, ok := w.l2.src[n]; ok {
-		if w.v.chain() {
+	in2 := func() (entry, bool) {
+		s, ok := w.l2.src[n]
+		if ok && w.v.chain() {
 			return entry{s, orgChain, 0}, true
 		}
-		return entry{s, orgL2, 0}, true
+		if w.v.l2ts() {
+			return entry{s, orgL2, w.l2.mt[n]}, ok
+		}
+		return entry{s, orgL2, 0}, ok
+	}
+	first, second := in1, in2
+	if w.v.l2first() {
+		first, second = in2, in1
+	}
+	if en, ok := first(); ok {
+		return en, true
+	}
+	if en, ok := second(); ok {
+		return en, true
 	}
 	return entry{}, false
+}
+
+// timed: the loader this origin stands for reports timestamps; mtimeNow is what it reports now.
+func (w *world) timed(origin int) bool {
+	return origin == orgL1 || (origin == orgL2 && w.v.l2ts())
+}
+
+func (w *world) mtimeNow(origin int, n string) (int64, bool) {
+	if origin == orgL1 {
+		t, ok := w.l1.mt[n]
+		return t, ok
+	}
+	_, ok := w.l2.src[n]
+	return w.l2.mt[n], ok
 }
 
 type expect struct {
@@ -375,18 +464,31 @@ func (w *world) modelGet(n string) expect {
 			}
 			return expect{kind: k, tag: c.tag, found: true}
 		}
-		switch c.origin {
-		case orgReg:
+		switch {
+		case c.origin == orgReg:
 			return expect{kind: "hit-registered", tag: c.tag, found: true}
-		case orgL1:
-			mt, present := w.l1.mt[n]
+		case w.timed(c.origin): // cached from a timestamp-aware loader
+			mt, present := w.mtimeNow(c.origin, n)
 			if !present || mt > c.mtime {
+				// the change must be visible to this call: the template is loaded again, and a load
+				// consults the loaders in registration order — also when the changed copy is not in
+				// the first loader that has the name by now
 				en, ok := w.fromLoaders(n)
 				if !ok {
 					return expect{kind: "notfound-after-delete"} // the cache keeps what it has
 				}
 				w.cached[n] = en
+				if present && en.origin != c.origin {
+					return expect{kind: "reload-newer-earlier-loader-wins", tag: en.tag, found: true}
+				}
 				return expect{kind: "reload-newer", tag: en.tag, found: true}
+			}
+			if en, _ := w.fromLoaders(n); en.origin != c.origin {
+				// unchanged where it came from, but a loader registered earlier has gained the name:
+				// "an unchanged template is not re-read" and "the first that has the name wins" pull
+				// in different directions — not determined by the statement
+				w.dirty[n] = true
+				return expect{kind: "dontcare-timed-unchanged-shadowed", dontcare: true}
 			}
 			return expect{kind: "hit-unchanged-reload-on", tag: c.tag, found: true, noReread: true}
 		default: // cached from a loader without timestamps (L2, or the chain)
@@ -505,6 +607,13 @@ func (w *world) apply(o op) string {
 	case opMod2:
 		w.ver++
 		w.l2.src[o.n] = fmt.Sprintf("v%d@L2", w.ver)
+		if w.v.l2ts() {
+			w.clock++
+			w.l2.mt[o.n] = w.clock
+		}
+	case opTouch2:
+		w.clock++
+		w.l2.mt[o.n] = w.clock
 	case opTouch1:
 		w.clock++
 		w.l1.mt[o.n] = w.clock
@@ -515,6 +624,7 @@ func (w *world) apply(o op) string {
 		w.l1.write(o.n)
 	case opDel2:
 		delete(w.l2.src, o.n)
+		delete(w.l2.mt, o.n)
 	case opCache0:
 		w.setCfg(func(e *twig.Engine) { e.SetCache(false) })
 		w.cache = false
@@ -587,10 +697,13 @@ func (w *world) canon() string {
 		}
 		if s, ok := w.l2.src[n]; ok {
 			addV(s)
+			if w.v.l2ts() {
+				ts = append(ts, w.l2.mt[n])
+			}
 		}
 		if c, ok := w.cached[n]; ok {
 			addV(c.tag)
-			if c.origin == orgL1 {
+			if w.timed(c.origin) {
 				ts = append(ts, c.mtime)
 			}
 		}
@@ -638,13 +751,16 @@ func (w *world) canon() string {
 		}
 		if s, ok := w.l2.src[n]; ok && n != "inc" {
 			b = append(b, 'b', byte('0'+vrank(s)))
+			if w.v.l2ts() {
+				b = append(b, '@', byte('0'+trank(w.l2.mt[n])))
+			}
 		}
 		if c, ok := w.cached[n]; ok {
 			if n == "inc" {
 				b = append(b, 'C')
 			} else {
 				b = append(b, 'c', byte('0'+vrank(c.tag)), byte('0'+c.origin))
-				if c.origin == orgL1 {
+				if w.timed(c.origin) {
 					b = append(b, '@', byte('0'+trank(c.mtime)))
 				}
 			}
@@ -690,8 +806,12 @@ func (r *runStats) add(w *world, n int) {
 func applicableSeq(v variant, h []op) bool {
 	l1 := map[string]bool{}
 	l2 := map[string]bool{}
-	if v.Seeded {
-		l1["n1"], l2["n1"], l2["n2"] = true, true, true
+	for _, c := range v.startContents() {
+		if c.loader == 1 {
+			l1[c.name] = true
+		} else {
+			l2[c.name] = true
+		}
 	}
 	cache := true
 	for _, o := range h {
@@ -702,6 +822,10 @@ func applicableSeq(v variant, h []op) bool {
 			l2[o.n] = true
 		case opTouch1:
 			if !l1[o.n] {
+				return false
+			}
+		case opTouch2:
+			if !l2[o.n] || !v.l2ts() {
 				return false
 			}
 		case opDel1:
@@ -814,7 +938,7 @@ func subtree(v variant, prefix []op, depth int) *vlib.Outcome {
 			}
 			return true
 		}
-		for _, a := range alphabet {
+		for _, a := range alphabetOf(v) {
 			h = append(h, a)
 			if applicableSeq(v, h) && !rec(target) {
 				h = h[:len(h)-1]
@@ -859,7 +983,7 @@ func closure(v variant, maxStates int) (hists [][]op, closed bool) {
 		if i%5000 == 4999 {
 			heartbeat()
 		}
-		for _, a := range alphabet {
+		for _, a := range alphabetOf(v) {
 			if !w.applicable(a) {
 				continue
 			}
@@ -895,9 +1019,15 @@ var closureClosed = map[string]bool{}
 func closureOf(v variant, maxStates int) ([][]op, bool) {
 	// the reference machine does not depend on the registration API, and the "builtin" and "fs"
 	// arrangements have the reference machine of "sep"
-	mv := variant{Arr: "sep", Seeded: v.Seeded, Reg: "str"}
-	if v.chain() {
+	// (and "revfs" that of "rev")
+	mv := variant{Arr: "sep", Start: v.Start, Reg: "str"}
+	switch {
+	case v.chain():
 		mv.Arr = "chain"
+	case v.l2first():
+		mv.Arr = "rev"
+	case v.l2ts():
+		mv.Arr = "ts2"
 	}
 	key := fmt.Sprintf("%s|%d", mv, maxStates)
 	if h, ok := closureCache[key]; ok {
@@ -918,7 +1048,7 @@ func stateBlock(v variant, hists [][]op) *vlib.Outcome {
 		if len(h) > deepest {
 			deepest = len(h)
 		}
-		for _, a := range alphabet {
+		for _, a := range alphabetOf(v) {
 			nh := append(append([]op{}, h...), a)
 			if !applicableSeq(v, nh) {
 				continue
@@ -960,24 +1090,40 @@ func plans(thorough bool) []plan {
 	var ps []plan
 	var all []variant
 	for _, arr := range []string{"sep", "chain", "builtin"} {
-		for _, seeded := range []bool{true, false} {
+		for _, start := range []string{"seeded", "empty"} {
 			for _, reg := range []string{"str", "tpl", "cmp"} {
-				all = append(all, variant{arr, seeded, reg})
+				all = append(all, variant{arr, start, reg})
 			}
+		}
+	}
+	// the timestamp-aware loader registered after a plain one ("rev") and after another timestamp-aware
+	// one ("ts2"); start state "late": only the loader registered last has n1
+	var later []variant
+	for _, arr := range []string{"rev", "ts2"} {
+		for _, start := range []string{"late", "seeded", "empty"} {
+			later = append(later, variant{arr, start, "str"})
 		}
 	}
 	if thorough {
 		for _, v := range all {
 			ps = append(ps, plan{v, 5, 3, false})
 		}
-		ps = append(ps, plan{variant{"fs", true, "str"}, 4, 2, false}, plan{variant{"fs", false, "str"}, 4, 2, false})
-		ps = append(ps, plan{variant{"sep", true, "str"}, 6, 4, true}, plan{variant{"sep", false, "str"}, 6, 4, true})
+		ps = append(ps, plan{variant{"fs", "seeded", "str"}, 4, 2, false}, plan{variant{"fs", "empty", "str"}, 4, 2, false})
+		for _, v := range later {
+			ps = append(ps, plan{v, 5, 3, false})
+		}
+		ps = append(ps, plan{variant{"revfs", "late", "str"}, 4, 2, false})
+		ps = append(ps, plan{variant{"sep", "seeded", "str"}, 6, 4, true}, plan{variant{"sep", "empty", "str"}, 6, 4, true})
 	} else {
 		for _, v := range all {
 			ps = append(ps, plan{v, 4, 2, false})
 		}
-		ps = append(ps, plan{variant{"fs", true, "str"}, 3, 2, false}, plan{variant{"fs", false, "str"}, 3, 2, false})
-		ps = append(ps, plan{variant{"sep", true, "str"}, 5, 3, false})
+		ps = append(ps, plan{variant{"fs", "seeded", "str"}, 3, 2, false}, plan{variant{"fs", "empty", "str"}, 3, 2, false})
+		for _, v := range later {
+			ps = append(ps, plan{v, 4, 2, false})
+		}
+		ps = append(ps, plan{variant{"revfs", "late", "str"}, 3, 2, false})
+		ps = append(ps, plan{variant{"sep", "seeded", "str"}, 5, 3, false})
 	}
 	return ps
 }
@@ -991,18 +1137,25 @@ func bfsPlans(thorough bool) []bfsPlan {
 	const all = 1 << 30
 	if thorough {
 		return []bfsPlan{
-			{variant{"sep", false, "str"}, all},
-			{variant{"chain", false, "str"}, all},
-			{variant{"sep", false, "tpl"}, all},
-			{variant{"builtin", false, "cmp"}, all},
-			{variant{"fs", false, "str"}, 20000},
+			{variant{"sep", "empty", "str"}, all},
+			{variant{"chain", "empty", "str"}, all},
+			{variant{"sep", "empty", "tpl"}, all},
+			{variant{"builtin", "empty", "cmp"}, all},
+			{variant{"fs", "empty", "str"}, 20000},
+			{variant{"rev", "empty", "str"}, all},
+			{variant{"ts2", "late", "str"}, 100000},
+			{variant{"revfs", "late", "str"}, 10000},
 		}
 	}
 	return []bfsPlan{
-		{variant{"sep", false, "str"}, 4000},
-		{variant{"chain", false, "str"}, 4000},
-		{variant{"builtin", true, "cmp"}, 1500},
-		{variant{"fs", true, "str"}, 600},
+		{variant{"sep", "empty", "str"}, 4000},
+		{variant{"chain", "empty", "str"}, 4000},
+		{variant{"builtin", "seeded", "cmp"}, 1500},
+		{variant{"fs", "seeded", "str"}, 600},
+		// every state within four operations of the start state (2 269 / 3 015) and then some
+		{variant{"rev", "late", "str"}, 2400},
+		{variant{"ts2", "late", "str"}, 3200},
+		{variant{"revfs", "late", "str"}, 600},
 	}
 }
 
@@ -1013,15 +1166,16 @@ func main() {
 		ID:    "C15",
 		Level: "model_checking",
 		Rule: "phase A: every history over the 19-letter alphabet (load/render/render-through-include, register, modify in L1/L2, touch, delete, the six configuration switches; " +
-			"two names) up to the depth bound, for each loader arrangement (separate / ChainLoader / followed by empty built-in loaders / real FileSystemLoader with controlled modification times), start state (seeded / empty loaders) and registration API " +
+			"two names; a 20th letter, touch in L2, where L2 reports timestamps too) up to the depth bound, for each loader arrangement (timestamp-aware L1 then plain L2 / ChainLoader / followed by empty built-in loaders / real FileSystemLoader with controlled modification times / " +
+			"plain L2 registered BEFORE the timestamp-aware L1, in memory and as a real FileSystemLoader / two timestamp-aware loaders), start state (seeded / empty loaders / only the loader registered last has the name) and registration API " +
 			"(RegisterString / RegisterTemplate / RegisterCompiledTemplate), each replayed on a fresh engine and compared step by step with the reference machine; " +
 			"phase B: breadth-first search from the start state over the reference states (versions and timestamps reduced to ranks), to closure in the thorough tier. " +
 			"Non-trivial = the explored subtree contains at least one Load/Render whose result the statement determines",
 		Assumptions: []string{
 			"histories longer than the depth bound are covered only by phase B, which assumes that the engine's cache state is a function of the reference state and the cache listing",
-			"left open by the statement, not demanded: registration while the cache is off; Load of a registered name while the cache is off; with auto-reload on, an entry cached from a loader without timestamps (L2, ChainLoader) whose source changed or that an earlier loader now shadows",
+			"left open by the statement, not demanded: registration while the cache is off; Load of a registered name while the cache is off; with auto-reload on, an entry cached from a loader without timestamps (L2, ChainLoader) whose source changed or that an earlier loader now shadows, and an entry cached from a timestamp-aware loader that is unchanged there while an earlier loader has gained the name (as soon as that loader reports a strictly newer time or loses the name, the reload in registration order is demanded)",
 			"timestamps only move forward and every content change comes with a newer timestamp (a change without a newer timestamp is unobservable by design)",
-			"two names plus one fixed including template, two loaders; file-system loaders are not used (their modification times cannot be controlled)",
+			"two names plus one fixed including template, two loaders (plus empty built-in loaders in one arrangement); the ChainLoader is only used with the timestamp-aware loader first",
 		},
 		QuickDeadline:    150,
 		ThoroughDeadline: 840,
@@ -1084,7 +1238,7 @@ func run(t *vlib.T) {
 						return
 					}
 				}
-				for _, a := range alphabet {
+				for _, a := range alphabetOf(p.v) {
 					rec(append(h, a))
 				}
 			}
